@@ -561,6 +561,26 @@ func (t *tr) applyContract(con *Contract, ct *callTarget, haveRecv bool, recv Te
 		vars2[fmt.Sprintf("called%d", i)] = cr
 	}
 	sc2 := &specCtx{pkg: pkg, vars: vars2, cur: post, old: pre, where: con.File, qn: qn}
+	if con.NoFrame {
+		// `modifies unknown` havocs every heap known so far; a heap that the postcondition mentions for the first
+		// time (a ghost variable, say) must count as havoc'd too, or old(x) and x would be the same symbol.
+		n0 := len(t.allVars)
+		for _, kind := range []string{"ensures", "always_ensures", "ghost_ensures"} {
+			for _, cl := range con.clauses(kind) {
+				if !strings.Contains(cl.Text, "at_loop(") {
+					sc2.where = cl.Where
+					t.spec(cl.Expr, sc2) // evaluated only to materialise the heaps it reads
+				}
+			}
+		}
+		for _, v := range append([]*Var(nil), t.allVars[n0:]...) {
+			if v.Heap && v != t.allocTop {
+				t.fresh(v)
+			}
+		}
+		post = t.cur.Env
+		sc2.cur = post
+	}
 	for _, kind := range []string{"ensures", "always_ensures", "ghost_ensures"} {
 		for _, cl := range con.clauses(kind) {
 			if strings.Contains(cl.Text, "at_loop(") {
@@ -605,6 +625,66 @@ func (t *tr) calleePanics(con *Contract, sc *specCtx, pre Env, vars map[string]T
 		}
 	}
 	t.panicExit(pos)
+}
+
+func identOf(e ast.Expr) *ast.Ident {
+	id, _ := ast.Unparen(e).(*ast.Ident)
+	return id
+}
+
+// runLoopDefer is the exit-time effect of a deferred call that was registered inside a loop.
+func (t *tr) runLoopDefer(d *deferRec) {
+	ct := t.resolveCall(d.call)
+	if ct == nil || ct.sig == nil {
+		t.errorf(d.pos, "cannot resolve deferred callee")
+		return
+	}
+	con := t.V.CS.Funcs[ct.key]
+	if con == nil {
+		t.errorf(d.pos, "no contract for callee %s", ct.key)
+		t.V.missing[ct.key]++
+		return
+	}
+	con.Used = true
+	pkg := t.V.Pkgs[con.PkgPath]
+	// unknown receiver and arguments
+	var args []Term
+	for i := 0; i < ct.sig.Params().Len(); i++ {
+		args = append(args, t.havocTerm("loopdefer$arg", ct.sig.Params().At(i).Type()))
+	}
+	haveRecv := ct.sig.Recv() != nil
+	var recv Term
+	if haveRecv {
+		recv = t.havocTerm("loopdefer$recv", ct.sig.Recv().Type())
+	}
+	vars := t.bindParams(con, ct.sig, haveRecv, recv, args)
+	pre := t.cur.Env.clone()
+	sc := &specCtx{pkg: pkg, vars: vars, cur: pre, old: pre, where: con.File, qn: t.qn()}
+	if con.MayPanic || len(con.clauses("panics_if")) > 0 {
+		if t.mayPanicOut() {
+			bs := t.fork(2)
+			t.cur = bs[0]
+			pv := t.fresh(t.panicVal)
+			t.assume(neq(pv, intLit(0)))
+			t.panicExit(d.pos)
+			t.cur = bs[1]
+		} else {
+			t.assert(tFalse, "nopanic/"+ct.key, "", d.pos, "deferred callee "+ct.key+" may panic and the panic is not contained")
+		}
+	}
+	if con.NoFrame {
+		t.havocModifies(con, sc, pre, d.pos)
+		return
+	}
+	for _, l := range t.modLocs(con.clauses("modifies"), sc) {
+		if l.heap == t.allocTop {
+			continue
+		}
+		t.fresh(l.heap) // any object of that heap, any number of times
+	}
+	oldTop := t.read(t.allocTop)
+	top := t.fresh(t.allocTop)
+	t.assume(ge(top, oldTop))
 }
 
 func lastName(key string) string {
@@ -1207,7 +1287,29 @@ func (t *tr) evAppend(c *ast.CallExpr) Term {
 
 func (t *tr) deferStmt(x *ast.DeferStmt) {
 	if len(t.loops) > 0 {
-		t.errorf(x.Pos(), "defer inside a loop is not supported")
+		// A deferred call registered inside a loop runs at exit once per registration, on the objects of that
+		// iteration. It is over-approximated: if registered at all, everything its contract allows it to modify
+		// (on any object) is havoc'd at exit, nothing about its postcondition is assumed, and it may panic if its
+		// contract says so.
+		if _, isLit := ast.Unparen(x.Call.Fun).(*ast.FuncLit); isLit {
+			t.errorf(x.Pos(), "deferred function literal inside a loop is not supported")
+			return
+		}
+		for _, a := range x.Call.Args {
+			t.ev(a)
+		}
+		if se, ok := ast.Unparen(x.Call.Fun).(*ast.SelectorExpr); ok {
+			if _, isPkg := t.info.Uses[identOf(se.X)].(*types.PkgName); !isPkg {
+				t.ev(se.X)
+			}
+		}
+		if t.cur == nil {
+			return
+		}
+		d := &deferRec{call: x.Call, pos: x.Pos(), inLoop: true}
+		d.flag = t.newVar(fmt.Sprintf("deferred$%d", len(t.defers)+1), SBool, types.Typ[types.Bool], false)
+		t.assign(d.flag, tTrue)
+		t.defers = append(t.defers, d)
 		return
 	}
 	d := &deferRec{call: x.Call, pos: x.Pos()}
@@ -1379,6 +1481,7 @@ func (t *tr) fieldAddr(e ast.Expr) (Term, bool) {
 	name := "faddr$" + typeKey(pt.Elem()) + "." + se.Sel.Name
 	t.V.W.declFun(name, []string{SInt}, SInt)
 	t.V.W.declFun(name+"~inv", []string{SInt}, SInt)
-	t.V.W.addAxiom(name, fmt.Sprintf("(forall ((p Int)) (! (and (< (%s p) 0) (= (%s (%s p)) p)) :pattern ((%s p))))", sym(name), sym(name+"~inv"), sym(name), sym(name)))
+	t.V.W.declFun("faddr~tag", []string{SInt}, SInt)
+	t.V.W.addAxiom(name, fmt.Sprintf("(forall ((p Int)) (! (and (< (%s p) 0) (= (%s (%s p)) p) (= (faddr~tag (%s p)) %d)) :pattern ((%s p))))", sym(name), sym(name+"~inv"), sym(name), sym(name), faddrTag(name), sym(name)))
 	return app(sym(name), SInt, base), true
 }
